@@ -19,6 +19,7 @@ import (
 	"io"
 	"net"
 	"os"
+	"runtime"
 	"strconv"
 	"strings"
 	"sync"
@@ -419,6 +420,29 @@ type runState struct {
 	gaveUp    map[bool]bool
 
 	cbInjected bool // a callback returned its injected error
+	// dead: Exec has given the run up (watchdog). The library goroutine may still be running -
+	// a mutated selection loop can spin for ever without touching the connection - so every
+	// further call into the harness (Read, Write, a callback) ends that goroutine.
+	dead    bool
+	runaway bool // more than maxEvents events: the library is in a loop that does not end
+}
+
+// maxEvents bounds the events of one run: a legitimate run has a few dozen; a run that passes this
+// bound is a loop that does not end (reported as a stall, like a call that never returns).
+const maxEvents = 5000
+
+// abandoned ends the calling goroutine when the run has been given up or has run away (r.mu not
+// held).
+func (r *runState) abandoned() {
+	r.mu.Lock()
+	if len(r.events) > maxEvents {
+		r.dead, r.runaway = true, true
+	}
+	d := r.dead
+	r.mu.Unlock()
+	if d {
+		runtime.Goexit()
+	}
 }
 
 // add records an event (r.mu held) and cancels the context when the case asks for it.
@@ -528,6 +552,7 @@ func (c conn) SetWriteDeadline(t time.Time) error { c.r.setDeadline(t, false, tr
 
 func (c conn) Read(p []byte) (int, error) {
 	r := c.r
+	r.abandoned()
 	r.mu.Lock()
 	defer r.mu.Unlock()
 	if len(r.rest) > 0 {
@@ -585,6 +610,7 @@ func (c conn) Read(p []byte) (int, error) {
 
 func (c conn) Write(p []byte) (int, error) {
 	r := c.r
+	r.abandoned()
 	r.mu.Lock()
 	defer r.mu.Unlock()
 	idx := r.ops
@@ -796,6 +822,7 @@ func (r *runState) features() []xmpp.StreamFeature {
 			Necessary:  xmpp.SessionState(b.Nec),
 			Prohibited: xmpp.SessionState(b.Proh),
 			List: func(ctx context.Context, e xmlstream.TokenWriter, start xml.StartElement) (bool, error) {
+				r.abandoned()
 				r.mu.Lock()
 				r.add(Event{Kind: "L", F: i, St: r.state()})
 				r.mu.Unlock()
@@ -814,6 +841,7 @@ func (r *runState) features() []xmpp.StreamFeature {
 						req = true
 					}
 				}
+				r.abandoned()
 				r.mu.Lock()
 				r.add(Event{Kind: "P", F: i, St: r.state(), Req: req})
 				r.mu.Unlock()
@@ -830,6 +858,7 @@ func (r *runState) features() []xmpp.StreamFeature {
 			f.Negotiate = func(ctx context.Context, s *xmpp.Session, data interface{}) (xmpp.SessionState, io.ReadWriter, error) {
 				st := uint8(s.State())
 				srv := st&Received != 0
+				r.abandoned()
 				r.mu.Lock()
 				r.add(Event{Kind: "N", F: i, St: st, Srv: srv})
 				r.mu.Unlock()
@@ -938,6 +967,11 @@ func Exec(cs Case) Result {
 		res.Events = append([]Event(nil), r.events...)
 		res.Script = r.script
 		switch {
+		case r.runaway:
+			res.Events = res.Events[:200]
+			res.Outcome, res.Err = "STALL", fmt.Sprintf("more than %d events: a loop that does not end", maxEvents)
+			res.State = cs.St0
+			NoteStall()
 		case out.panic != "":
 			res.Outcome, res.Err = "PANIC", out.panic
 			res.State = r.state()
@@ -963,6 +997,7 @@ func Exec(cs Case) Result {
 		res.Script = append([]Item(nil), r.script...)
 		res.Outcome = "STALL"
 		res.State = cs.St0
+		r.dead = true
 		NoteStall()
 	}
 	for _, e := range res.Events {
